@@ -869,6 +869,32 @@ func (e *Env) callExpr(ex *ast.CallExpr) (SVal, error) {
 		r.Len = plus(sv.Len, "1")
 		r.Loc = "spec:" + r.Loc
 		return r, nil
+	case "deref":
+		// deref(p): the value a pointer held by a cell points to (the executor's model of *p)
+		if len(ex.Args) != 1 {
+			return SVal{}, fmt.Errorf("deref(p)")
+		}
+		pv, err := e.eval(ex.Args[0])
+		if err != nil {
+			return SVal{}, err
+		}
+		var et types.Type
+		if pv.GoT != nil {
+			if pt, ok := pv.GoT.Underlying().(*types.Pointer); ok {
+				et = pt.Elem()
+			}
+		}
+		if pv.K == KLoc && et != nil {
+			if hv, ok := e.heapVal(pv.Loc); ok {
+				return hv, nil
+			}
+			return e.X.load(e.St, pv.Loc, et, token.NoPos), nil
+		}
+		if pv.K == KU && et != nil {
+			t := e.X.D.app("deref!"+typeShort(et), []string{pv.T}, []string{"U"}, sortOf(et))
+			return e.X.unbox(e.St, t, et), nil
+		}
+		return SVal{}, fmt.Errorf("deref: not a pointer of known type")
 	case "has", "mapval":
 		// has(m, k): the map m holds key k; mapval(m, k): the value stored under k. `m'` names the map after the callback.
 		if len(ex.Args) != 2 {
